@@ -17,15 +17,20 @@ FILES = {
 }
 
 
-def interpolation_unit(layer, rules, hashes):
+FMG_FILE = {"applyFMGInterpolation": ("src/Interpolation/fmg_interpolation.cpp", ["FINE_NODE_FMG_INTERPOLATION"], "coarse_from")}
+
+
+def interpolation_unit(layer, rules, hashes, files=None, pre=None):
     """Extract the five operators; vector/level reference parameters become the file-scope objects
     fromLevel, toLevel, result, x (R3)."""
     out = []
-    for fn, (rel, macros, binding) in FILES.items():
+    for fn, (rel, macros, binding) in (files or FILES).items():
         src = Src.get(rel)
         for mname in macros:
             mt = src.macro(mname)
             hashes[mname] = sha(mt)
+            if pre:
+                mt = pre(mname, mt, rules)
             out.append(common_body_rewrites(mt, rules, layer))
         f = src.function("Interpolation::" + fn, must_params=["fromLevel", "toLevel", "result", "x"])
         hashes["Interpolation::" + fn] = sha(f["body"])
@@ -39,6 +44,8 @@ def interpolation_unit(layer, rules, hashes):
                          r"const\s+PolarGrid\s*&\s*fineGrid\s*=\s*%s\.grid\(\)\s*;" % want[1], "", body, expect=1)
         if re.search(r"PolarGrid\s*&", body):
             raise ExtractError("unexpected PolarGrid alias left in " + fn)
+        if pre:
+            body = pre(fn, body, rules)
         f["body"] = body
         e = units.emit_function_globals("Interpolation_" + fn, f, rules, layer)
         out.append(e["text"])
